@@ -58,6 +58,7 @@ def model_runs(ck, thorough, seed):
             for outl in (False, True):
                 for pol in ("always", "unequal"):
                     add("PGibbs N=3 NP=2 %s outl=%d %s" % (k, outl, pol), pg_consts(3, 2, k, outl, seed, pol=pol))
+        add("PGibbs N=3 NP=3 full outl=0 unequal", pg_consts(3, 3, "full", False, seed, pol="unequal"))
         for k in ("boot", "semi", "full"):
             add("PGibbs N=2 NP=3 %s outl=1 always" % k, pg_consts(2, 3, k, True, seed, pol="always"))
             add("PGibbs N=3 NP=2 %s outl=1 unequal prime2" % k, pg_consts(3, 2, k, True, seed + 1, pol="unequal", prime=PRIMES[1]))
@@ -272,6 +273,8 @@ def configs_for(tier):
                 for outl in (False, True):
                     cfgs.append(dict(base, n=3, kernel=k, wiring=w, outl=outl, thr=0.5))
             cfgs.append(dict(base, n=2, kernel=k, wiring="run", outl=True, thr=0.5, np=3))
+            if k == "full":
+                cfgs.append(dict(base, n=3, kernel=k, wiring="lib", outl=False, thr=0.5, np=3))
             for a in (0.3, 1.0, 2.5):
                 cfgs.append(dict(n=2, kernel=k, wiring="run", outl=True, thr=0.5, np=2, dist="real", alpha=a))
                 cfgs.append(dict(n=3, kernel=k, wiring="lib", outl=False, thr=0.5, np=2, dist="real", alpha=a))
